@@ -184,3 +184,46 @@ package object
 //@   assigns  nothing
 //@   loop 1 invariant isVal(o) && traceStr(o) == traceStr(obj)
 //
+//
+// ---- C05: property resolution along the prototype chain -------------------------------------
+//@ props C05 C01 C11
+// anc(o,k): the k-th prototype of o (anc(o,0) = o); nil once the chain has ended.
+//@ spec fun anc(o PanObject, k int) PanObject
+//@ axiom anc_zero: forall o PanObject :: {anc(o, 0)} anc(o, 0) == o
+//@ axiom anc_back: forall o PanObject, k int :: {anc(o, k)} k > 0 ==> anc(o, k) == (anc(o, k - 1) == nil ? nil : anc(o, k - 1).Proto())
+//@ axiom anc_fwd: forall o PanObject, k int :: {anc(o, k).Proto()} k >= 0 && anc(o, k) != nil ==> anc(o, k + 1) == anc(o, k).Proto()
+// once the chain has ended it stays ended: derived from anc_back by induction on j; the induction step is
+// discharged as lemma anc_nil_step, the induction principle itself is the assumption
+//@ lemma anc_nil_step: forall o PanObject, k int, j int :: k >= 0 && j >= k && anc(o, k) == nil && anc(o, j) == nil ==> anc(o, j + 1) == nil
+//@ axiom anc_nil: forall o PanObject, k int, j int :: {anc(o, k), anc(o, j)} k >= 0 && j >= k && anc(o, k) == nil ==> anc(o, j) == nil
+// owns / propOf read the (mutable) pair table of an object: expanded in the state where they are used.
+//@ spec macro owns(o PanObject, h int) bool = isT(o, *PanObj) && has(*as(o, *PanObj).Pairs, h)
+//@ spec macro propOf(o PanObject, h int) PanObject = (*as(o, *PanObj).Pairs)[h].Value
+//@ spec macro noOwnerBelow(o PanObject, h int, k int) bool = forall j int :: {anc(o, j)} 0 <= j && j < k ==> anc(o, j) != nil && !owns(anc(o, j), h)
+//
+//@ func object.findProp(o, propHash) res, ok
+//@   requires o != nil
+//@   requires isT(o, *PanObj) ==> as(o, *PanObj).Pairs != nil
+//@   ensures  ok <==> owns(o, propHash)
+//@   ensures  ok ==> res == propOf(o, propHash)
+//@   ensures  !ok ==> res == nil
+//@   assigns  nothing
+//
+// wfPairs: every PanObj on the chain has a pair table (established by the PanObj constructors).
+//@ func object.FindPropAlongProtos(o, propHash) res, ok
+//@   requires o == nil || isVal(o)
+//@   requires forall p *PanObj :: {p.Pairs} p != nil ==> p.Pairs != nil
+//@   ensures  ok ==> (exists k int :: k >= 0 && owns(anc(o, k), propHash) && res == propOf(anc(o, k), propHash) && noOwnerBelow(o, propHash, k))
+//@   ensures  !ok ==> res == nil && (forall k int :: {anc(o, k)} k >= 0 ==> !owns(anc(o, k), propHash))
+//@   assigns  nothing
+//@   loop 1 invariant obj == nil || isVal(obj)
+//@   loop 1 invariant exists k int :: k >= 0 && obj == anc(o, k) && noOwnerBelow(o, propHash, k)
+//
+//@ func object.FindPropOwner(o, propHash) res, ok
+//@   requires o == nil || isVal(o)
+//@   requires forall p *PanObj :: {p.Pairs} p != nil ==> p.Pairs != nil
+//@   ensures  ok ==> (exists k int :: k >= 0 && owns(anc(o, k), propHash) && res == anc(o, k) && noOwnerBelow(o, propHash, k))
+//@   ensures  !ok ==> res == nil && (forall k int :: {anc(o, k)} k >= 0 ==> !owns(anc(o, k), propHash))
+//@   assigns  nothing
+//@   loop 1 invariant obj == nil || isVal(obj)
+//@   loop 1 invariant exists k int :: k >= 0 && obj == anc(o, k) && noOwnerBelow(o, propHash, k)
